@@ -51,6 +51,7 @@ ChunkOK(c) == StepsOK(c, 1, 0, FALSE)
 
 CaseOK(c) == CASE c.k = "syn" -> SynOK(c) [] c.k = "dem" -> DemOK(c) [] c.k = "chunk" -> ChunkOK(c)
 BadCases == {i \in 1..Len(Log) : ~CaseOK(Log[i])}
-Init == x = 0 /\ PrintT(<<"CASES", Len(Log), "BAD", BadCases>>)
-Next == x' = x
+\* evaluated in Next (worker thread: honours -Xss), not in Init (main thread)
+Init == x = 0
+Next == x = 0 /\ x' = 1 /\ PrintT(<<"CASES", Len(Log)>>) /\ \A i \in BadCases : PrintT(<<"BADCASE", i>>)
 =============================================================================
